@@ -380,6 +380,12 @@ func (h *HttpServer) openToken(version byte, token []byte, aad []byte, out inter
 	if err != nil {
 		return &RpcError{Type: "RuntimeError", Message: "Malformed state token"}
 	}
+	// The decoder skips CR/LF and ignores non-zero trailing pad bits, so
+	// several texts decode to the same bytes. Only the exact text sealToken
+	// produced is a token this server minted; an altered one is refused.
+	if base64.StdEncoding.EncodeToString(raw) != string(token) {
+		return &RpcError{Type: "RuntimeError", Message: "Malformed state token"}
+	}
 	if len(raw) < stateTokenMinLen {
 		return &RpcError{Type: "RuntimeError", Message: "Malformed state token"}
 	}
